@@ -1168,6 +1168,83 @@ impl IndexManager {
     }
 }
 
+/// Verification hooks (compiled only by the Kani model checker; add-only, no effect on normal
+/// builds).
+#[cfg(kani)]
+pub mod verif_access {
+    use std::sync::atomic::{AtomicBool, AtomicU32};
+
+    /// Result returned by the modelled `save_index` (the harness sets it before a step).
+    pub static SAVE_OK: AtomicBool = AtomicBool::new(true);
+    /// Number of calls of the modelled `save_index`.
+    pub static SAVE_CALLS: AtomicU32 = AtomicU32::new(0);
+}
+
+#[cfg(kani)]
+impl IndexManager {
+    /// I/O-free stand-in for the private `save_index`, selected with `#[kani::stub]` from the
+    /// harness crate: same signature, result chosen by the harness.
+    #[allow(dead_code)]
+    fn verif_save_index_model(_id: u8, _index: &IndexFile, _path: &Path) -> Result<()> {
+        use std::sync::atomic::Ordering::Relaxed;
+        verif_access::SAVE_CALLS.fetch_add(1, Relaxed);
+        if verif_access::SAVE_OK.load(Relaxed) {
+            Ok(())
+        } else {
+            Err(StorageError::Index(String::new()))
+        }
+    }
+
+    /// Manager holding one bucket with the given sorted section and an update section produced
+    /// by appending `updates` in order (pre-state of the inductive-step harnesses).
+    pub fn verif_from_parts(bucket: u8, sorted: Vec<IndexEntry>, updates: Vec<UpdateEntry>) -> Self {
+        let mut update_section = UpdateSection::new();
+        for u in updates {
+            update_section.append(u);
+        }
+        let mut indices = BTreeMap::new();
+        indices.insert(
+            bucket,
+            IndexFile {
+                header: IndexHeader {
+                    data_size: 16,
+                    data_hash: 0,
+                    version: 7,
+                    bucket,
+                    unused: 0,
+                    length_size: 4,
+                    location_size: 5,
+                    key_size: 9,
+                    segment_bits: 30,
+                },
+                entries: sorted,
+                update_section,
+            },
+        );
+        Self {
+            indices,
+            base_path: PathBuf::new(),
+        }
+    }
+
+    /// `(sorted length, update-section length, sorted section strictly ascending)` of a bucket.
+    pub fn verif_bucket_shape(&self, bucket: u8) -> Option<(usize, usize, bool)> {
+        self.indices.get(&bucket).map(|index| {
+            let mut strict = true;
+            let mut i = 1;
+            while i < index.entries.len() {
+                strict &= index.entries[i - 1].key < index.entries[i].key;
+                i += 1;
+            }
+            (
+                index.entries.len(),
+                index.update_section.entry_count(),
+                strict,
+            )
+        })
+    }
+}
+
 /// Statistics about loaded indices
 #[derive(Debug, Clone)]
 pub struct IndexStats {
